@@ -146,8 +146,66 @@ pub fn plan_for(prop: &str, tier: Tier, kind: Kind) -> Plan {
     p
 }
 
+/// Tiny tier (Miri): every case costs ~0.1 s, so cases are partitioned by
+/// index (nothing is generated that this shard does not run).
+fn tiny_stream(kind: Kind, seed: u64, shard: u64, n: u64, f: &mut dyn FnMut(&[u8], Tag)) {
+    let mut idx = 0u64;
+    let mut own = || {
+        idx += 1;
+        idx % n == shard
+    };
+    for t in gen::templates(kind) {
+        if t.len() <= 200 && own() {
+            f(&t, Tag::G1);
+        }
+    }
+    let fields: &[gen::Field] = match kind {
+        Kind::Req => &gen::REQ_FIELDS,
+        Kind::Resp => &gen::RESP_FIELDS,
+        Kind::Hdr => &[gen::Field::Name, gen::Field::Value],
+        Kind::Chunk => &[gen::Field::ChunkExt],
+    };
+    for &field in fields {
+        for &l in &[0usize, 1, 7, 8, 9, 15, 16, 17, 31, 32, 33, 40, 64, 65] {
+            for (q, v) in [(usize::MAX, 0u8), (0, 0x7F), (l / 2, 0x09), (l.saturating_sub(1), 0x80)] {
+                if own() {
+                    f(&gen::g3_message(kind, field, l, q, v, (l % 3) * 5, l % 2 == 0), Tag::G3);
+                }
+            }
+        }
+    }
+    for i in 0..24u64 {
+        if own() {
+            let mut r = crate::rng::Rng::derive(seed, 0x717 + kind as u64, i);
+            let mut b = gen::g5(kind, &mut r, 40, 40);
+            if i % 2 == 0 {
+                let o = b.clone();
+                gen::g6_mutate(&mut r, &mut b, &o);
+            }
+            if i % 3 == 0 {
+                let k = r.below(b.len() + 1);
+                b.truncate(k);
+            }
+            f(&b, Tag::G5);
+        }
+    }
+}
+
 pub fn run_inputs(w: &mut W) {
     let prop = w.prop.clone();
+    if w.tier == Tier::Tiny {
+        for kind in kinds_for(&prop) {
+            let (seed, shard, n) = (w.seed, w.shard, w.nshards);
+            let mut f = |b: &[u8], tag: Tag| {
+                if !b.is_empty() {
+                    w.st.distinct_case(hash_bytes(kind as u64 + 100, b));
+                }
+                unit_buffer(w, kind, b, tag);
+            };
+            tiny_stream(kind, seed, shard, n, &mut f);
+        }
+        return;
+    }
     for kind in kinds_for(&prop) {
         let plan = plan_for(&prop, w.tier, kind);
         let seed = w.seed;
